@@ -11,7 +11,6 @@ import (
 	"context"
 	"encoding/json"
 	"fmt"
-	"os"
 	"sort"
 	"strings"
 	"testing"
@@ -30,7 +29,8 @@ import (
 )
 
 const prop = "C11"
-const maxPairs = 400
+const maxPairs = 400    // up to this many (first fault, later fault) pairs per input are executed exhaustively
+const samplePairs = 200 // beyond it, this many drawn pairs are executed (the rest is counted)
 
 func TestMain(m *testing.M) { kit.Main(m) }
 
@@ -46,6 +46,7 @@ type Pre struct {
 	OtherGroups int    `json:"otherGroups,omitempty"` // unrelated healthy groups on the selected node
 	Orphan      bool   `json:"orphan,omitempty"`      // an unrelated reservation pod without consumer on the selected node
 	ClaimShared bool   `json:"claimShared,omitempty"` // DRA: claims are already allocated and reserved for another pod
+	Gone        string `json:"gone,omitempty"`        // "" | node | pod : the selected node / the pod no longer exists
 }
 
 type Case struct {
@@ -54,8 +55,8 @@ type Case struct {
 	Pre         Pre          `json:"pre"`
 	CDI         bool         `json:"cdi,omitempty"`
 	IndexPolicy string       `json:"indexPolicy,omitempty"`
-	Faults      []sim.Fault  `json:"faults,omitempty"`    // the faulted reconcile's plan (empty: fault-free)
-	NoExclude   bool         `json:"noExclude,omitempty"` // replay of a written-up finding: judge even if a known trigger is hit
+	Faults      []sim.Fault  `json:"faults,omitempty"`         // the faulted reconcile's plan (empty: fault-free)
+	Recovery    []sim.Fault  `json:"recoveryFaults,omitempty"` // faults of the Sync() that follows (after a crash: the start-up sync)
 }
 
 const (
@@ -69,7 +70,10 @@ func otherGroup(i int) string { return fmt.Sprintf("og%d", i) }
 func (c *Case) world() ([]client.Object, []runtime.Object) {
 	var objs []client.Object
 	var kube []runtime.Object
-	objs = append(objs, sim.BuildNode(node0), sim.BuildNode(node1))
+	if c.Pre.Gone != "node" {
+		objs = append(objs, sim.BuildNode(node0))
+	}
+	objs = append(objs, sim.BuildNode(node1))
 	pod := sim.BuildPod(c.Pod)
 	switch c.Pre.Bound {
 	case "this":
@@ -146,7 +150,10 @@ func (c *Case) world() ([]client.Object, []runtime.Object) {
 	if c.Pre.Orphan {
 		objs = append(objs, sim.BuildReservationPod(c.Req.Node, "gorphan", 1))
 	}
-	objs = append(objs, pod, sim.BuildRequest(c.Pod, c.Req))
+	if c.Pre.Gone != "pod" {
+		objs = append(objs, pod)
+	}
+	objs = append(objs, sim.BuildRequest(c.Pod, c.Req))
 	for i := 0; i < c.Pod.Claims; i++ {
 		cl := sim.BuildClaim(c.Pod, i)
 		if c.Pre.ClaimShared {
@@ -252,6 +259,7 @@ func genCase(t *rapid.T) *Case {
 		}
 	}
 	c.Pre.Bound = []string{"", "this", "other"}[sim.Weighted(t, "bound", 86, 7, 7)]
+	c.Pre.Gone = []string{"", "node", "pod"}[sim.Weighted(t, "gone", 92, 4, 4)]
 	c.Pre.OtherGroups = sim.Weighted(t, "otherGroups", 5, 3, 2)
 	c.Pre.Orphan = sim.Chance(t, 25, "orphan")
 	c.CDI = sim.Chance(t, 20, "cdi")
@@ -280,8 +288,8 @@ type Trace struct {
 
 type outcome struct {
 	sig, msg   string
-	excluded   string     // trigger of a written-up genuine defect: the execution is not judged (NOTES.md)
 	calls      []sim.Call // faulted reconcile
+	recovery   []sim.Call // first Sync() after it
 	crashed    bool
 	nontrivial bool
 	classes    []string
@@ -299,7 +307,9 @@ func strs(cs []sim.Call) []string {
 func podKey(c *Case) string { return c.Pod.NS + "/" + c.Pod.Name }
 
 // bindable: the initial state is one from which a reconcile is supposed to bind the pod.
-func (c *Case) bindable() bool { return c.Pre.Bound == "" && c.Req.Phase != "Succeeded" }
+func (c *Case) bindable() bool {
+	return c.Pre.Bound == "" && c.Req.Phase != "Succeeded" && c.Pre.Gone == ""
+}
 
 func execute(c *Case) *outcome {
 	o := &outcome{trace: &Trace{}}
@@ -326,7 +336,6 @@ func execute(c *Case) *outcome {
 	if err != nil {
 		o.trace.Err = err.Error()
 	}
-	bindFailed := err != nil || contains(marks, "bind-failed")
 	o.crashed = s.Crashed()
 	s1 := s.Snapshot()
 	o.trace.After = s1
@@ -336,12 +345,6 @@ func execute(c *Case) *outcome {
 	}
 	fi := analyse(c, o.calls)
 	o.nontrivial = fi.partialEffect
-	if o.excluded = knownTrigger(c, s0, o.calls, bindFailed, o.crashed); o.excluded != "" && (c.NoExclude || os.Getenv("VERIF_C11_NOEXCLUDE") != "") {
-		o.excluded = ""
-	}
-	if o.excluded != "" {
-		return o
-	}
 
 	// never: bound twice / to another node / any effect on a finished request
 	if sig, msg := checkNever(c, s, s0, s1, o.calls); sig != "" {
@@ -356,9 +359,20 @@ func execute(c *Case) *outcome {
 		s.Restart()
 		proc = s.NewProc()
 	}
-	s.Begin(0, nil)
+	s.Begin(0, c.Recovery)
 	syncErr := proc.RRS.Sync(context.Background())
 	rec := s.TakeCalls()
+	o.recovery = rec
+	if len(c.Recovery) > 0 {
+		// the recovery itself was hit: restart once more if it crashed; the next, fault-free sync is the one that counts
+		if s.Crashed() {
+			s.Restart()
+			proc = s.NewProc()
+		}
+		s.Begin(0, nil)
+		syncErr = proc.RRS.Sync(context.Background())
+		rec = append(rec, s.TakeCalls()...)
+	}
 	o.trace.Recovery = strs(rec)
 	if syncErr != nil {
 		return fail("sync-fails", "fault-free Sync() after the faulted reconcile fails: %v", syncErr)
@@ -411,6 +425,19 @@ func execute(c *Case) *outcome {
 	if sig, msg := checkBindings(c, s); sig != "" {
 		return fail(sig, "%s", msg)
 	}
+
+	// 4. the request is Succeeded now: one more reconcile is a no-op
+	s.Begin(0, nil)
+	_, err, pn = proc.Reconcile(c.Pod.NS, c.Pod.Name)
+	again := s.TakeCalls()
+	if pn != "" || err != nil {
+		return fail("noop-fails", "reconcile of the Succeeded request fails: %v %s", err, pn)
+	}
+	for _, cl := range again {
+		if cl.Mut {
+			return fail("succeeded-not-noop", "the request is Succeeded and its pod bound, but another reconcile made a mutating call: %s", cl)
+		}
+	}
 	return o
 }
 
@@ -434,7 +461,7 @@ func analyse(c *Case, calls []sim.Call) faultInfo {
 		if cl.Phase == "rollback" {
 			fi.rollbackRan = true
 		}
-		if cl.Injected != "" {
+		if cl.Injected != "" && cl.Injected != "crashed" {
 			fi.injected++
 			if first {
 				first = false
@@ -458,40 +485,6 @@ func analyse(c *Case, calls []sim.Call) faultInfo {
 		}
 	}
 	return fi
-}
-
-// knownTrigger recognises, from the inputs and the faulted reconcile's call log alone (never from a
-// verdict), the triggers of the genuine defects written up in NOTES.md. Such executions are dropped
-// from the search (and counted) so that it continues behind them.
-//
-//	multi-label-partial: a multi-fraction pod, an injected error at the label patch of its 2nd or
-//	   later GPU group whose label is not yet stored (finding-multi-fraction-label-left.json);
-//	dra-claim-left: a pod with resource claims whose attempt fails (without a crash) after a claim's
-//	   status was updated (finding-dra-claim-left.json).
-func knownTrigger(c *Case, s0 *sim.Snapshot, calls []sim.Call, failed, crashed bool) string {
-	if c.Pod.Multi() {
-		ord := 0
-		for _, cl := range calls {
-			if cl.Phase != "bind" || cl.Verb != "patch" || cl.Kind != "Pod" || cl.Key != podKey(c) {
-				continue
-			}
-			ord++
-			if ord > len(c.Req.Groups) {
-				break // the received-type annotation patch
-			}
-			if cl.Injected == "error" && ord >= 2 && !contains(s0.Pods[podKey(c)].Groups, c.Req.Groups[ord-1]) {
-				return "multi-label-partial"
-			}
-		}
-	}
-	if c.Pod.Claims > 0 && failed && !crashed {
-		for _, cl := range calls {
-			if cl.Verb == "kube-update" && cl.Kind == "resourceclaims" && cl.Err == "" {
-				return "dra-claim-left"
-			}
-		}
-	}
-	return ""
 }
 
 // checkNever: clauses that hold whatever happened.
@@ -519,6 +512,18 @@ func checkNever(c *Case, s *sim.Sim, s0, s1 *sim.Snapshot, calls []sim.Call) (st
 			if cl.Mut {
 				return "succeeded-not-noop", fmt.Sprintf("request already Succeeded but the reconcile made a mutating call: %s", cl)
 			}
+		}
+	}
+	if c.Pre.Gone != "" && c.Req.Phase != "Succeeded" && c.Pre.Bound == "" {
+		// nothing to bind (to): no effect but the report, and the report must be Failed unless it could not be made
+		for _, cl := range calls {
+			if cl.Mut && !(cl.Verb == "sub-patch" && cl.Sub == "status") {
+				return "gone-not-noop", fmt.Sprintf("the %s is gone but the reconcile made a mutating call other than a status update: %s", c.Pre.Gone, cl)
+			}
+		}
+		fi := analyse(c, calls)
+		if r := s1.Requests[podKey(c)]; fi.injected == 0 && (r.Phase != "Failed" || r.Reason == "") {
+			return "gone-not-reported", fmt.Sprintf("the %s is gone; request is phase=%q reason=%q, want Failed with a reason", c.Pre.Gone, r.Phase, r.Reason)
 		}
 	}
 	if c.Pre.Bound != "" && c.Req.Phase != "Succeeded" {
@@ -821,6 +826,7 @@ func classesOf(c *Case, o *outcome, mode string) []string {
 	add(strings.HasPrefix(c.Pod.FracCtr, "i"), "init-fraction-container")
 	add(c.Pod.LegacyEnv, "legacy-env")
 	add(c.Pre.Bound != "", "pre:bound-"+c.Pre.Bound)
+	add(c.Pre.Gone != "", "pre:gone-"+c.Pre.Gone)
 	add(c.Req.Phase != "Pending", "pre:req-"+c.Req.Phase)
 	add(c.Pre.Labelled != "", "pre:labelled-"+c.Pre.Labelled)
 	add(c.Pre.ConfigMaps != "", "pre:cm-"+c.Pre.ConfigMaps)
@@ -864,15 +870,25 @@ func modeOf(fs []sim.Fault) string {
 	return strings.Join(parts, "+")
 }
 
-func runOne(t *rapid.T, c *Case, faults []sim.Fault) *outcome {
+func runOne(t *rapid.T, c *Case, faults []sim.Fault, recovery ...sim.Fault) *outcome {
 	cc := *c
 	cc.Faults = faults
+	cc.Recovery = recovery
 	o := execute(&cc)
-	if o.excluded != "" {
-		kit.Note("excluded:"+o.excluded, 1)
+	mode := modeOf(faults)
+	if len(recovery) > 0 {
+		mode += "/recovery-" + recovery[0].Mode
+	}
+	kit.Eval(kit.HexKey(&cc), o.nontrivial, classesOf(&cc, o, mode)...)
+	if o.sig != "" && len(faults) > 0 && faults[0].Mode == "lost" {
+		// outside the fixed fault model (a failing call applies nothing): recorded, never an alarm
+		kit.Note("observation:lost-reply:"+o.sig, 1)
 		return o
 	}
-	kit.Eval(kit.HexKey(&cc), o.nontrivial, classesOf(&cc, o, modeOf(faults))...)
+	if o.sig != "" && kit.Known(prop, o.sig) {
+		// a finding listed under "known" in /verif/known_findings.json: counted, the search goes on
+		return o
+	}
 	if o.sig != "" {
 		report(t, &cc, o)
 	}
@@ -883,7 +899,7 @@ func runOne(t *rapid.T, c *Case, faults []sim.Fault) *outcome {
 }
 
 func TestCheckAllOrNothing(t *testing.T) {
-	kit.Run(t, kit.Budget{Quick: 160, Thorough: 3000}, func(t *rapid.T) {
+	kit.Run(t, kit.Budget{Quick: 112, Thorough: 2400}, func(t *rapid.T) {
 		c := genCase(t)
 		base := runOne(t, c, nil)
 		n := len(base.calls)
@@ -892,12 +908,16 @@ func TestCheckAllOrNothing(t *testing.T) {
 			f sim.Fault
 			l int
 		}
-		var firsts []single
+		var firsts, crashes []single
 		for k := 1; k <= n; k++ {
 			ek := errKinds[sim.Uniform(t, len(errKinds), "errKind")]
 			o := runOne(t, c, []sim.Fault{{K: k, Mode: "error", Err: ek}})
 			firsts = append(firsts, single{sim.Fault{K: k, Mode: "error", Err: ek}, len(o.calls)})
-			runOne(t, c, []sim.Fault{{K: k, Mode: "crash"}})
+			if base.calls[k-1].Mut {
+				runOne(t, c, []sim.Fault{{K: k, Mode: "lost"}})
+			}
+			oc := runOne(t, c, []sim.Fault{{K: k, Mode: "crash"}})
+			crashes = append(crashes, single{sim.Fault{K: k, Mode: "crash"}, len(oc.recovery)})
 			if base.calls[k-1].Verb == "watch" {
 				for _, mk := range []string{"closed", "errorevent"} {
 					o := runOne(t, c, []sim.Fault{{K: k, Mode: "mute", Err: mk}})
@@ -909,27 +929,40 @@ func TestCheckAllOrNothing(t *testing.T) {
 			return
 		}
 		// pairs: a second fault at any later call of the run the first fault produced
-		type pair struct{ a, b sim.Fault }
+		// ... or, after a crash, at any call of the start-up Sync()
+		type pair struct {
+			a, b     sim.Fault
+			recovery bool
+		}
 		var pairs []pair
 		for _, f := range firsts {
 			for j := f.f.K + 1; j <= f.l; j++ {
-				pairs = append(pairs, pair{f.f, sim.Fault{K: j, Mode: "error", Err: "internal"}}, pair{f.f, sim.Fault{K: j, Mode: "crash"}})
+				pairs = append(pairs, pair{a: f.f, b: sim.Fault{K: j, Mode: "error", Err: "internal"}}, pair{a: f.f, b: sim.Fault{K: j, Mode: "crash"}})
+			}
+		}
+		for _, f := range crashes {
+			for j := 1; j <= f.l; j++ {
+				pairs = append(pairs, pair{a: f.f, b: sim.Fault{K: j, Mode: "error", Err: "internal"}, recovery: true}, pair{a: f.f, b: sim.Fault{K: j, Mode: "crash"}, recovery: true})
 			}
 		}
 		if len(pairs) > maxPairs {
 			kit.Note("pair-sets-sampled", 1)
-			kit.Note("pairs-not-executed", int64(len(pairs)-maxPairs))
+			kit.Note("pairs-not-executed", int64(len(pairs)-samplePairs))
 			// fair sample without replacement (partial Fisher-Yates on rapid draws)
-			for i := 0; i < maxPairs; i++ {
+			for i := 0; i < samplePairs; i++ {
 				j := i + sim.Uniform(t, len(pairs)-i, "pairPick")
 				pairs[i], pairs[j] = pairs[j], pairs[i]
 			}
-			pairs = pairs[:maxPairs]
+			pairs = pairs[:samplePairs]
 		} else {
 			kit.Note("pair-sets-exhaustive", 1)
 		}
 		for _, p := range pairs {
-			runOne(t, c, []sim.Fault{p.a, p.b})
+			if p.recovery {
+				runOne(t, c, []sim.Fault{p.a}, p.b)
+			} else {
+				runOne(t, c, []sim.Fault{p.a, p.b})
+			}
 		}
 	})
 }
